@@ -176,6 +176,21 @@ func (k c13) Run(c *mon.Ctx, workload string, i int64) {
 		c.Violate(r.Class, fmt.Sprintf("%s\n%s--- point\n%s", r.Detail, srcDump(cs.Srcs), cs.Point.Show()), info)
 		return
 	}
+	if mo.Unspecified == "" && !mo.Shared.MapOrderDependent && !mo.Budget {
+		// the same loaded set run once more on a fresh copy of the point
+		real2 := drive.PointFromModel(cs.Point)
+		ro2 := drive.RunV1(ok["main.p"], real2, &drive.RunState{Budget: realBudget(mo.Shared.Steps)})
+		c.Eval(1)
+		c.Count("second_runs_of_the_same_loaded_set", 1)
+		if r := compareRun(ro2, mo, cmpOpts{Point: model, RealPoint: real2}); r != nil {
+			c.Violate("second-run-differs:"+r.Class, fmt.Sprintf("the SECOND run of the same loaded set differs from the reference (the first agreed): %s\n%s--- point\n%s", r.Detail, srcDump(cs.Srcs), cs.Point.Show()), info)
+			return
+		}
+		if ro.Err != nil && ro2.Err != nil && fmt.Sprint(ro.Err.PosChain) != fmt.Sprint(ro2.Err.PosChain) {
+			c.Violate("second-run-differs:chain", fmt.Sprintf("first run's chain %+v, second run's chain %+v\n%s", ro.Err.PosChain, ro2.Err.PosChain, srcDump(cs.Srcs)), info)
+			return
+		}
+	}
 	if mo.Unspecified != "" || mo.Shared.MapOrderDependent || mo.Err == nil || ro.Err == nil {
 		return
 	}
